@@ -116,6 +116,8 @@ def run(rep):
         "the renamed package uses no identifier starting with the new prefix other than images of the renaming (freshness; "
         "hypothesis of prefix_equivariant_global, built into the generated packages)",
         "per-plugin overrides: no plugin's prefix is a prefix of another's for the names-disjoint theorem; the F13 witness lies outside",
+        "a prefix that is a keyword / predeclared identifier / single letter is only given to packages in which goderive mints no helper "
+        "named by a bare prefix (defect N1 in .work/new-defects-names.md: newName would mint `func`, `len`, `h` as function names)",
         "customised prefixes are not captured by other identifiers: they have at least 3 letters and differ from every identifier of the "
         "package and from the parameters / locals of the emitted code (this, that, dst, src, object, h, v, i, k, …); a prefix such as `h` "
         "makes a hash function named h whose local `h := uint64(17)` shadows it (generator hygiene of goderive, outside C12's wording)",
